@@ -57,6 +57,24 @@ def classify_copy(ix: Index, m, f, node) -> str:
     return 'OTHER'
 
 
+def _constructs(ix, d, depth: int) -> bool:
+    """d is a class, or a function every return of which is the call of a class / of such a function (depth <= 3):
+    each call gives a newly constructed object"""
+    from ..core import ClassDef, FuncDef
+    if isinstance(d, ClassDef):
+        return True
+    if not isinstance(d, FuncDef) or depth > 3 or d.is_generator or d.decorators:
+        return False
+    rets = util.returned_values(d)
+    if not rets:
+        return False
+    for v in rets:
+        v = util.resolve_temp(d, v)
+        if not isinstance(v, ast.Call) or not _constructs(ix, ix.callee(d.module, d, v), depth + 1):
+            return False
+    return True
+
+
 def clause_a(c: Check):
     ix = c.ix
     ec = ix.cls('exactly_lib.execution.configuration:ExecutionConfiguration')
@@ -81,6 +99,37 @@ def clause_a(c: Check):
     c.expect(ok, 'C17-a', '_Executor.apply/per-case-configuration',
              'the execution configuration handed to full execution is not rebuilt per case by '
              '_exe_conf_that_may_be_updated()', ap.loc())
+    # the configuration builder ([conf] settings: status, actor, home directories, timeout) is mutable and is made
+    # anew for every case: the value handed to full execution is constructed during this very call of apply - by a
+    # function every return of which constructs its result - not taken from state kept in the executor
+    from ..absint import Interp, Hooks, State, Sym
+
+    class HA(Hooks):
+        def inline(self, fd, st):
+            return fd.cls is ap.cls and fd is not ap and fd is not upd
+
+    it = Interp(ix, c.fo, HA())
+    n_calls = 0
+    for p in it.run_function(ap, {}):
+        for e in p.calls():
+            if e.data.get('callee') != full:
+                continue
+            n_calls += 1
+            names = [q.arg for q in full.positional_params()]
+            given = dict(zip(names, e.data['args']))
+            given.update(e.data['kwargs'])
+            v = given.get('configuration_builder')
+            o = v.origin if isinstance(v, Sym) else None
+            fresh = False
+            how = util.describe(v) if v is not None else 'nothing'
+            if o and o[0] == 'call':
+                d = ix.try_lookup(o[1]) if ':' in o[1] else None
+                fresh = d is not None and _constructs(ix, d, 0)
+            c.expect(fresh, 'C17-a', '_Executor.apply/configuration-builder-fresh-per-case',
+                     'the configuration builder handed to full execution is %s - not an object constructed for this '
+                     'case: what [conf] of one case sets (status, actor, timeout, home directories) is in force for the '
+                     'cases after it' % how, ap.loc())
+    c.require(n_calls >= 1, 'C17-a: _Executor.apply does not call full execution')
     # second hops
     init = ix.func(EXECUTOR_MOD + ':_PartialExecutor.__init__')
     post = ix.func(EXECUTOR_MOD + ':_PartialExecutor._setup_post_sds_environment')
